@@ -157,7 +157,6 @@ func (c *Ctx) runDeterminism(prefix string) {
 	}
 }
 
-
 func isLibPkgPath(path string) bool {
 	for _, s := range libShort {
 		if path == repoMod+"/"+s {
